@@ -193,9 +193,10 @@ fn split_time(lt: i64) -> i64 {
     if !TIME_SPLIT.load(std::sync::atomic::Ordering::Relaxed) {
         return lt;
     }
-    assert!((-1000..=1000).contains(&lt), "split_time: logical time out of range");
+    assert!((-37..=1000).contains(&lt), "split_time: logical time out of range");
     if lt <= -25 {
-        i64::MIN + (lt + 1000)
+        // the oldest logical time in use (round 0's "older than the previous round", -37) is i64::MIN itself
+        i64::MIN + (lt + 37)
     } else {
         i64::MAX - (1000 - lt)
     }
